@@ -553,11 +553,6 @@ class MBXML:
             value <= cls.UINTVAR_MAX
         ), f"write_uintvar cannot write integers bigger than {cls.UINTVAR_MAX}"
         bin_val: str = bin(value)[2:][::-1]
-
-        if bin_val[0:7] == "0000000" and (len(bin_val) / 7) > 1:
-            # remove appended zeroes
-            bin_val = bin_val[7:]
-
         bin_len: int = len(bin_val)
         byte_len: int = math.ceil(bin_len / 7)
 
@@ -635,10 +630,19 @@ class MBXML:
         """
         assert precision >= 1, f"write_ufloatvar precision must be at least 1 decimal"
         int_part = int(value)
-        dec_part = int(value % 1 * 128**precision)
+        dec_part = cls.strip_fraction(int(value % 1 * 128**precision))
         integer = cls.write_uintvar(int_part)
         decimal = cls.write_uintvar(dec_part)
         return integer + decimal
+
+    @classmethod
+    def strip_fraction(cls, dec_part: int) -> int:
+        """
+        Trailing zero septets of a fraction carry no information (the reader scales by the septet count)
+        """
+        while dec_part and dec_part % 128 == 0:
+            dec_part //= 128
+        return dec_part
 
     @classmethod
     def read_sfloatvar(cls, data: bytes, idx: int) -> Tuple[float, int]:
@@ -656,7 +660,9 @@ class MBXML:
     def write_sfloatvar(cls, value: float, precision: int) -> bytes:
         assert precision >= 1, f"write_sfloatvar precision must be at least 1 decimal"
         int_part = int(value)
-        dec_part = int(abs(value % (1 if value >= 0 else -1)) * 128**precision)
+        dec_part = cls.strip_fraction(
+            int(abs(value % (1 if value >= 0 else -1)) * 128**precision)
+        )
         integer = cls.write_sintvar(int_part, negative_zero=value < 0)
         decimal = cls.write_uintvar(dec_part)
         return integer + decimal
